@@ -27,8 +27,8 @@ type Model struct {
 	mu  sync.Mutex
 }
 
-func StartModel(path string) (*Model, error) {
-	cmd := exec.Command(path)
+func StartModel(path string, mode ...string) (*Model, error) {
+	cmd := exec.Command(path, mode...)
 	wc, err := cmd.StdinPipe()
 	if err != nil {
 		return nil, err
@@ -212,8 +212,9 @@ func (c *Ctx) Scale(q, t int) int {
 	return q
 }
 
-func (c *Ctx) NewModel() *Model {
-	m, err := StartModel(c.DrvPath)
+// NewModel starts a model driver; mode selects the model area ("pure" if omitted).
+func (c *Ctx) NewModel(mode ...string) *Model {
+	m, err := StartModel(c.DrvPath, mode...)
 	if err != nil {
 		fmt.Fprintln(os.Stderr, "cannot start model driver:", err)
 		os.Exit(2)
